@@ -14,7 +14,7 @@ DESCRIPTION = {
              "written to the router decode to exactly one terminal message with that id - a non-progress YIELD carrying the return value, or ERROR(INVOCATION,id,uri) with "
              "wamp.error.invalid_payload / payload_size_exceeded in the two send-failure cases - never zero, never two; progressive YIELDs only before it and only if "
              "receive_progress was set; the endpoint observed exactly the caller's args/kwargs plus CallDetails iff requested; no message exceeds the announced limit.  "
-             "Each procedure is registered as a plain callable, a bound method, or through register(obj) with a @wamp.register-decorated method of a normal / empty-container / __bool__-false object: the method must be invoked with exactly that object as self.  Style 'checked' registers with check_types=True.  Enumerated job: encrypted invocations whose endpoint returns / raises / emits a value the payload codec cannot serialize still get exactly one terminal reply.  WebSocket transports also run with outgoing auto-fragmentation.  Non-trivial = pending endpoint + INTERRUPT, a send-failure behaviour, or >=2 concurrent invocations; distinct by (transport, serializer, history). Endpoint behaviour 'chained': a Deferred that has already fired and waits on a Deferred returned by one of its callbacks (asyncio: a Task awaiting the inner future) - pending until the inner step completes, and an INTERRUPT must cancel it. Behaviour 'unserializable-big': a result that is neither serializable nor within the transport's size limit - one ERROR (invalid_payload or payload_size_exceeded) is still required."),
+             "Each procedure is registered as a plain callable, a bound method, or through register(obj) with a @wamp.register-decorated method of a normal / empty-container / __bool__-false object: the method must be invoked with exactly that object as self.  Style 'checked' registers with check_types=True.  Enumerated job: encrypted invocations whose endpoint returns / raises / emits a value the payload codec cannot serialize still get exactly one terminal reply.  WebSocket transports also run with outgoing auto-fragmentation.  Non-trivial = pending endpoint + INTERRUPT, a send-failure behaviour, or >=2 concurrent invocations; distinct by (transport, serializer, history). Endpoint behaviour 'chained': a Deferred that has already fired and waits on a Deferred returned by one of its callbacks (asyncio: a Task awaiting the inner future) - pending until the inner step completes, and an INTERRUPT must cancel it. Behaviour 'unserializable-big': a result that is neither serializable nor within the transport's size limit - one ERROR (invalid_payload or payload_size_exceeded) is still required. Half of the progress endpoints call the details.progress they kept once more after returning: no progressive YIELD may follow the terminal reply."),
     "assumptions": ["the transport stays up for the whole history (transport loss is C06/C13)"],
 }
 
@@ -369,6 +369,16 @@ class World:
         else:
             inv["state"] = "done"
             self.expect_terminal(inv)
+            if beh == "progress" and wants and det is not None and det.progress is not None and (len(args) + iid) % 2 == 0:
+                # an endpoint that kept details.progress and calls it once more after it has returned (a stray timer, a late worker thread):
+                # whatever the session does with that call, no progressive result may follow the terminal reply on the wire
+                try:
+                    self.tx.d.call(lambda: det.progress("late", j=-1))
+                except Exception:
+                    pass        # refusing the late call with an exception is fine
+                self.tx.d.settle()
+                self.collect()
+                self.late_progress_calls = getattr(self, "late_progress_calls", 0) + 1
 
     def expect_terminal(self, inv, how=None):
         beh = how or inv["beh"]
